@@ -218,6 +218,15 @@ def facts():
     nq = sig("src/query/entries.rs", "query")
     m = re.search(r"&'(\w+)mutself", nq)
     f["entries_entry_query_borrows_receiver"] = bool(m) and ("view::Views<'%s>" % m.group(1)) in nq
+    # the `Disjoint` bound between a query's views and its entry views, on every public way to a query result
+    dj = []
+    for fn_ in ("query", "par_query", "run_system", "run_par_system"):
+        sg = sig("src/world/mod.rs", fn_)
+        dj.append("DisjointIndices" in sg and re.search(r"view::Disjoint<(Views|System::Views<'a>|ParSystem::Views<'a>),Registry,DisjointIndices>", sg) is not None)
+    tk = norm(strip_comments(read("src/system/schedule/task/sealed.rs")))
+    dj.append("S::EntryViews<'a>:view::Disjoint<S::Views<'a>,R,DisjointIndices>" in tk)
+    dj.append("P::EntryViews<'a>:view::Disjoint<P::Views<'a>,R,DisjointIndices>" in tk)
+    f["entry_views_disjoint_bound_everywhere"] = all(dj)
     wq = sig("src/world/mod.rs", "query")
     m = re.search(r"&'(\w+)mutself", wq)
     f["world_query_borrows_receiver"] = bool(m) and ("result::Iter<'%s," % m.group(1)) in wq and ("view::Views<'%s>" % m.group(1)) in wq
@@ -259,7 +268,7 @@ def emit(f):
               "world_send_needs_components_send", "world_sync_needs_components_sync", "iter_send_needs_views_send",
               "entries_send_needs_views_send", "parview_ref_needs_sync", "parview_mut_needs_send", "parviews_need_send",
               "world_entry_query_borrows_receiver", "entries_entry_query_borrows_receiver", "world_query_borrows_receiver",
-              "view_resources_borrows_receiver", "get_mut_borrows_receiver",
+              "view_resources_borrows_receiver", "get_mut_borrows_receiver", "entry_views_disjoint_bound_everywhere",
               "wb_push", "wb_buffer_push", "wb_extend", "wb_reserve", "wb_shrink", "wb_other",
               "de_row_pops", "de_row_complete_flag",
               "task_system_self_send", "task_system_views_send", "task_system_res_send", "task_system_entry_send",
